@@ -1,6 +1,7 @@
 package mon
 
 import (
+	"bytes"
 	"fmt"
 
 	"github.com/go-i2p/common/encrypted_leaseset"
@@ -467,6 +468,33 @@ func forgeries(r *core.Rand, sc signedCase) []forgery {
 		f.Options = rm.Mapping{Pairs: append(append([]rm.Pair{}, m.Options.Pairs...), rm.Pair{K: []byte("zzzz"), V: []byte("1")})}
 		out = append(out, forgery{"content-changed-signature-kept", f.Encode()})
 		out = append(out, forgery{"empty-key-pair-spliced-into-options", func() []byte { g := m; g.Options = withEmptyKeyPair(m.Options); return g.Encode() }()})
+		if pm := permuted(r, m.Options); pm != nil {
+			g := m
+			g.Options = *pm
+			out = append(out, forgery{"option-pairs-reordered-signature-kept", g.Encode()})
+		}
+		for ai := range m.Addrs {
+			if pm := permuted(r, m.Addrs[ai].Options); pm != nil {
+				g := m
+				g.Addrs = append([]rm.RouterAddress{}, m.Addrs...)
+				g.Addrs[ai].Options = *pm
+				out = append(out, forgery{"address-option-pairs-reordered-signature-kept", g.Encode()})
+				break
+			}
+		}
+		if len(m.Addrs) >= 2 {
+			g := m
+			g.Addrs = append([]rm.RouterAddress{}, m.Addrs...)
+			g.Addrs[0], g.Addrs[1] = g.Addrs[1], g.Addrs[0]
+			if !bytes.Equal(g.Encode(), m.Encode()) {
+				out = append(out, forgery{"addresses-reordered-signature-kept", g.Encode()})
+			}
+		}
+		if k2, ok := longerKeyCert(r, m.Ident); ok {
+			g := m
+			g.Ident = k2
+			out = append(out, forgery{"key-certificate-lengthened-signature-kept", g.Encode()})
+		}
 		// peer_size altered, signature kept
 		f2 := m
 		f2.PeerSize = byte(1 + r.Pick(255))
@@ -497,6 +525,19 @@ func forgeries(r *core.Rand, sc signedCase) []forgery {
 		f2.EncKey = append([]byte{}, m.EncKey...)
 		f2.EncKey[100] ^= 1
 		out = append(out, forgery{"enckey-changed-signature-kept", f2.Encode()})
+		if len(m.Leases) >= 2 {
+			g := m
+			g.Leases = append([]rm.Lease{}, m.Leases...)
+			g.Leases[0], g.Leases[len(g.Leases)-1] = g.Leases[len(g.Leases)-1], g.Leases[0]
+			if !bytes.Equal(g.Encode(), m.Encode()) {
+				out = append(out, forgery{"leases-reordered-signature-kept", g.Encode()})
+			}
+		}
+		if len(m.Leases) < 16 {
+			g := m
+			g.Leases = append(append([]rm.Lease{}, m.Leases...), gen.Lease(r))
+			out = append(out, forgery{"lease-added-signature-kept", g.Encode()})
+		}
 	case "leaseset2":
 		m, _, _, err := rm.DecodeLeaseSet2(sc.bytes)
 		if err != nil {
@@ -534,6 +575,42 @@ func forgeries(r *core.Rand, sc signedCase) []forgery {
 		f2.Flags ^= 2
 		out = append(out, forgery{"flags-changed-signature-kept", f2.Encode()})
 		out = append(out, forgery{"empty-key-pair-spliced-into-options", func() []byte { g := m; g.Options = withEmptyKeyPair(m.Options); return g.Encode() }()})
+		if pm := permuted(r, m.Options); pm != nil {
+			g := m
+			g.Options = *pm
+			out = append(out, forgery{"option-pairs-reordered-signature-kept", g.Encode()})
+		}
+		// complete key entries of a type the library does not know inserted (count raised with them):
+		// before the genuine keys, between them, after them
+		if len(m.Keys) < 16 {
+			for _, pos := range []int{0, len(m.Keys) / 2, len(m.Keys)} {
+				g := m
+				extra := rm.EncKey{Type: uint16([]int{8, 9, 255, 0xFF01, 65280, 65535}[r.Pick(6)]), Data: r.Bytes([]int{0, 1, 32, 33, 256}[r.Pick(5)])}
+				g.Keys = append(append(append([]rm.EncKey{}, m.Keys[:pos]...), extra), m.Keys[pos:]...)
+				out = append(out, forgery{fmt.Sprintf("unknown-type-key-entry-inserted-at-%d-signature-kept", pos), g.Encode()})
+			}
+		}
+		if len(m.Keys) >= 2 {
+			g := m
+			g.Keys = append([]rm.EncKey{}, m.Keys...)
+			g.Keys[0], g.Keys[len(g.Keys)-1] = g.Keys[len(g.Keys)-1], g.Keys[0]
+			if !bytes.Equal(g.Encode(), m.Encode()) {
+				out = append(out, forgery{"keys-reordered-signature-kept", g.Encode()})
+			}
+		}
+		if len(m.Leases) >= 2 {
+			g := m
+			g.Leases = append([]rm.Lease2{}, m.Leases...)
+			g.Leases[0], g.Leases[len(g.Leases)-1] = g.Leases[len(g.Leases)-1], g.Leases[0]
+			if !bytes.Equal(g.Encode(), m.Encode()) {
+				out = append(out, forgery{"leases-reordered-signature-kept", g.Encode()})
+			}
+		}
+		if k2, ok := longerKeyCert(r, m.Dest); ok {
+			g := m
+			g.Dest = k2
+			out = append(out, forgery{"key-certificate-lengthened-signature-kept", g.Encode()})
+		}
 	case "metaleaseset":
 		m, _, _, err := rm.DecodeMetaLeaseSet(sc.bytes)
 		if err != nil {
@@ -563,6 +640,33 @@ func forgeries(r *core.Rand, sc signedCase) []forgery {
 			f.Entries = append([]rm.MetaEntry{}, m.Entries...)
 			f.Entries[0].Cost ^= 1
 			out = append(out, forgery{"entry-changed-signature-kept", f.Encode()})
+		}
+		if pm := permuted(r, m.Options); pm != nil {
+			g := m
+			g.Options = *pm
+			out = append(out, forgery{"option-pairs-reordered-signature-kept", g.Encode()})
+		}
+		for ei := range m.Entries {
+			if pm := permuted(r, m.Entries[ei].Props); pm != nil {
+				g := m
+				g.Entries = append([]rm.MetaEntry{}, m.Entries...)
+				g.Entries[ei].Props = *pm
+				out = append(out, forgery{"entry-property-pairs-reordered-signature-kept", g.Encode()})
+				break
+			}
+		}
+		if len(m.Entries) >= 2 {
+			g := m
+			g.Entries = append([]rm.MetaEntry{}, m.Entries...)
+			g.Entries[0], g.Entries[len(g.Entries)-1] = g.Entries[len(g.Entries)-1], g.Entries[0]
+			if !bytes.Equal(g.Encode(), m.Encode()) {
+				out = append(out, forgery{"entries-reordered-signature-kept", g.Encode()})
+			}
+		}
+		if k2, ok := longerKeyCert(r, m.Dest); ok {
+			g := m
+			g.Dest = k2
+			out = append(out, forgery{"key-certificate-lengthened-signature-kept", g.Encode()})
 		}
 	case "encleaseset":
 		m, _, err := rm.DecodeEncryptedLeaseSet(sc.bytes)
@@ -595,6 +699,33 @@ func forgeries(r *core.Rand, sc signedCase) []forgery {
 		out = append(out, forgery{"inner-changed-signature-kept", f.Encode()})
 	}
 	return out
+}
+
+// permuted returns the mapping with its pairs in another order (nil when it has fewer than two
+// pairs): a well-formed rearrangement of signed content, which a parser that sorts what it reads
+// maps back onto the signed form.
+func permuted(r *core.Rand, m rm.Mapping) *rm.Mapping {
+	if m.Raw != nil || len(m.Pairs) < 2 {
+		return nil
+	}
+	out := rm.Mapping{Pairs: append([]rm.Pair{}, m.Pairs...)}
+	i := r.Pick(len(out.Pairs) - 1)
+	j := i + 1 + r.Pick(len(out.Pairs)-i-1)
+	out.Pairs[i], out.Pairs[j] = out.Pairs[j], out.Pairs[i]
+	if bytes.Equal(out.Body(), m.Body()) {
+		return nil
+	}
+	return &out
+}
+
+// longerKeyCert: the identity's KEY certificate with bytes added behind the key types and the
+// length field raised accordingly (a coordinated edit; flipping the length alone misframes).
+func longerKeyCert(r *core.Rand, k rm.KAC) (rm.KAC, bool) {
+	if k.Cert.Type != rm.CertKey || len(k.Cert.Payload) < 4 {
+		return k, false
+	}
+	k.Cert.Payload = append(append([]byte{}, k.Cert.Payload...), r.Bytes(1+r.Pick(6))...)
+	return k, true
 }
 
 type offForgery struct {
